@@ -114,6 +114,17 @@ func splitOr(s, sep string) []string {
 	return strings.Split(s, sep)
 }
 
+// utf8Variant replaces one character c of s by a multi-byte UTF-8 rune whose code point has c as its low byte
+// (U+01cc, U+21cc, U+1F0cc): code that ranges over a string rune-wise and truncates to a byte confuses it with c.
+func utf8Variant(r *Rng, s string) string {
+	if len(s) == 0 {
+		return s
+	}
+	k := r.Intn(len(s))
+	cp := rune([]int{0x100, 0x2100, 0x1f000, 0x300}[r.Intn(4)]) | rune(s[k])
+	return s[:k] + string(cp) + s[k+1:]
+}
+
 // safeExec runs the observation script; a panic in the code under test becomes an observation.
 func safeExec(p *Prop, c Case) (obs string) {
 	defer func() {
